@@ -31,6 +31,8 @@ theorem C11_pure_data_after_extractions (s : List Char) (xs : List Extraction) :
       cases x
       · exact extractDouble_inv st0 h
       · exact extractWord_inv st0 h
+      · exact extractInt_inv false st0 h
+      · exact extractInt_inv true st0 h
   exact this xs _ (ofText_inv s)
 
 /-- a missing number (empty or blank text) is refused -/
